@@ -463,6 +463,25 @@ func pickEngine(c *Ctx) {
 			}
 		}
 	}
+	// a port no TCP endpoint can have is a malformed address, not a warehouse that happens to be down
+	{
+		dm := filepath.Join(env.root, "two-modes", "wh")
+		holder := api.WarehouseLocation("ca+file://" + dm)
+		for k, bad := range []string{"http://127.0.0.1:99999/x", "ca+http://127.0.0.1:65536/wh", "http://example.invalid:123456789012345678901234567890/x", "https://[::1]:70000/x"} {
+			op := fmt.Sprintf("pick-bad-port %d", k)
+			c.EmitR(op, "skip", "skip")
+			r1 := pickDirect(api.WareID{Type: "tar", Hash: pickHash}, []api.WarehouseLocation{api.WarehouseLocation(bad)})
+			r2 := pickDirect(api.WareID{Type: "tar", Hash: pickHash}, []api.WarehouseLocation{api.WarehouseLocation(bad), holder})
+			r3 := pickDirect(api.WareID{Type: "tar", Hash: pickHash}, []api.WarehouseLocation{holder, api.WarehouseLocation(bad)})
+			c.H("bad-port:" + r1)
+			if r1 != "err rio-usage-error" || r2 != "err rio-usage-error" {
+				c.PropFail("pick-wrong-error", fmt.Sprintf("the address %s (a port above 65535) alone answers %s, ahead of a holder %s: a malformed address is a usage error", bad, r1, r2), op)
+			}
+			if r3 != "opened 0" {
+				c.PropFail("pick-holder-not-served", fmt.Sprintf("a holder listed ahead of the malformed address %s: %s", bad, r3), op)
+			}
+		}
+	}
 	// a warehouse controller is a value: asking it for the ware a second time gives the ware again (http, ca+http, ca+file)
 	{
 		caDir := filepath.Join(env.root, "reopen-ca")
